@@ -1,6 +1,6 @@
 (* C10 — every exit path leaves no spawned process behind.
    Property theorems only; proofs are in Proofs/SysProc.v, Proofs/SysRoot.v, Proofs/SysTerm.v, Proofs/SysBound.v. *)
-From Zinoma.Proofs Require Import SysProc SysTerm SysBound SysShutdownW SysWitness.
+From Zinoma.Proofs Require Import SysProc SysTerm SysBound SysShutdownW SysSignal SysWitness.
 
 (* any mode, any interleaving, whichever way out (normal completion, failed target, signal): an actor that has left its
    loop holds neither a build script nor a service process — the kill and the reaping happen before the loop is left *)
@@ -76,3 +76,18 @@ Example C10_terminating_mid_cascade :
     (bool_decide (ph s = PTerminating SOk) && negb (quiescent true true s) &&
      bool_decide (hist s = [ObStart 1%N; ObSucc 1%N; ObStart 2%N; ObSucc 2%N; ObStart 1%N])) = true.
 Proof. apply witness_intro. vm_compute. reflexivity. Qed.
+
+(* "A TERMINATION SIGNAL IS ALWAYS HONOURED, ALSO WHILE MANY MESSAGES ARE IN FLIGHT": in any state that has not exited a signal can
+   arrive, and — whatever the inboxes and the root's queue hold (they are left untouched) — as long as the root has not begun to
+   terminate it can consume the pending signal, which begins the termination of EVERY actor (the termination message goes to all
+   of them); from there C10_shutdown_never_stuck and C10_shutdown_completes_any_mode. *)
+Theorem C10_signal_can_always_arrive :
+  forall (fx w : bool) (s : sys), (forall st, ph s <> PExited st) ->
+    exists s', exec fx w s LSignal = Some s' /\ sigq s' = true /\ ph s' = ph s.
+Proof. exact signal_can_always_arrive. Qed.
+
+Theorem C10_signal_always_honoured :
+  forall (fx w : bool) (s : sys), sigq s = true -> (ph s = PRun \/ ph s = PWaitTerm) ->
+    exists s', exec fx w s LRootSignal = Some s' /\ ph s' = PTerminating SOk /\ termq s' = dom (actors s) /\
+               inbox s' = inbox s /\ rootq s' = rootq s /\ actors s' = actors s.
+Proof. exact signal_always_honoured. Qed.
